@@ -11,6 +11,7 @@ import (
 	"math/rand"
 	"os"
 	"strconv"
+	"time"
 
 	"github.com/ryogrid/SamehadaDB/lib/common"
 	"github.com/ryogrid/SamehadaDB/lib/recovery"
@@ -27,6 +28,7 @@ func init() { drivers["page"] = pageDriver }
 const pgID = 7
 
 type pageEnv struct {
+	tw  *trace.Writer
 	tp  *access.TablePage
 	lg  *recovery.LogManager
 	lm  *access.LockManager
@@ -129,6 +131,11 @@ func (e *pageEnv) project(ev map[string]interface{}) {
 func (e *pageEnv) do(op []string) map[string]interface{} {
 	ev := map[string]interface{}{"ev": op[0], "panic": ""}
 	atoi := func(s string) int { v, _ := strconv.Atoi(s); return v }
+	if e.tw != nil {
+		wd := opWatch(e.tw, map[string]interface{}{"ev": op[0], "i": 0, "s": 0, "rb": false, "tag": 0}, 20*time.Second,
+			map[string]interface{}{"cnt": 0, "fsp": 0, "slots": []interface{}{}, "pid": pgID, "prev": -1, "next": -1})
+		defer wd.Stop()
+	}
 	func() {
 		defer func() {
 			if x := recover(); x != nil {
@@ -242,6 +249,7 @@ func pageDriver(args []string) error {
 		}
 		for _, w := range walks {
 			e := newPageEnv()
+			e.tw = tw
 			ev := map[string]interface{}{"ev": "Reset"}
 			e.project(ev)
 			tw.Emit(ev)
@@ -268,6 +276,7 @@ func pageDriver(args []string) error {
 		rng := rand.New(rand.NewSource(envSeed()))
 		for q := 0; q < nseq; q++ {
 			e := newPageEnv()
+			e.tw = tw
 			ev := map[string]interface{}{"ev": "Reset"}
 			e.project(ev)
 			tw.Emit(ev)
